@@ -353,12 +353,117 @@ Proof.
     + intros j J. destruct (Nat.eq_dec j k) as [->|N]; [auto|]. rewrite O1 by exact N. apply HF. lia.
 Qed.
 
-Theorem model_satisfies_monitor : forall i, monitor i (model i) = true.
+Theorem model_scen_satisfies_monitor : forall i, monitor_o (model_scen i) = true.
 Proof.
-  intros i. unfold monitor, model. destruct (run (init 0) (canon 0 i)) as [s|] eqn:R; [|reflexivity].
+  intros i. unfold model_scen. destruct (run (init 0) (canon 0 i)) as [s|] eqn:R; [|reflexivity].
   apply settled_monitor.
   - exists 0, (canon 0 i). exact R.
   - eapply canon_settles; [| | exact R]; cbn; intros; [reflexivity|lia].
+Qed.
+
+(* ---------------- concurrent id allocation ---------------- *)
+(* [astep] is the counter part of the transition system's allocation step *)
+Lemma astep_is_step s k : conns s k = Idle ->
+  step s (EHandshake k true) = Some (mkSt (next s + 1) (log s) (upd (conns s) k (HasId (next s)))).
+Proof. intros H. unfold step. cbn [conn_of]. rewrite H. reflexivity. Qed.
+
+Lemma nodup_app (a b : list N) : NoDup a -> NoDup b -> (forall x, In x a -> In x b -> False) -> NoDup (a ++ b).
+Proof.
+  induction a as [|x a IH]; intros Ha Hb D; cbn; [exact Hb|].
+  inversion Ha as [|? ? Nx Na]; subst. constructor.
+  - rewrite in_app_iff. intros [I|I]; [exact (Nx I)|]. apply (D x); [left; reflexivity|exact I].
+  - apply IH; [exact Na|exact Hb|]. intros y Iy. apply D. right. exact Iy.
+Qed.
+
+Lemma nodupb_iff l : nodupb l = true <-> NoDup l.
+Proof.
+  induction l as [|a l IH]; cbn [nodupb]; [split; [constructor|reflexivity]|].
+  rewrite andb_true_iff, negb_true_iff, IH. split.
+  - intros [E D]. constructor; [|exact D]. intros I.
+    assert (existsb (N.eqb a) l = true) by (apply existsb_exists; exists a; split; [exact I|apply N.eqb_refl]).
+    congruence.
+  - intros H. inversion H as [|? ? Na Nl]; subst. split; [|exact Nl].
+    destruct (existsb (N.eqb a) l) eqn:E; [|reflexivity].
+    apply existsb_exists in E as (y & I & E). apply N.eqb_eq in E. subst. contradiction.
+Qed.
+
+Lemma incr_snoc l x : incr l = true -> (forall y, In y l -> y < x) -> incr (l ++ [x]) = true.
+Proof.
+  induction l as [|a l IH]; intros I B; [reflexivity|].
+  destruct l as [|b l].
+  - cbn. rewrite andb_true_r. apply N.ltb_lt. apply B. left. reflexivity.
+  - cbn [app incr] in *. apply andb_true_iff in I as [I1 I2]. rewrite I1. cbn [andb]. apply (IH I2).
+    intros y Iy. apply B. right. exact Iy.
+Qed.
+
+Record AInv (n0 : N) (s : ast) : Prop := {
+  ai_bound : forall t x, In x (aseq s t) -> n0 < x < anext s;
+  ai_next : n0 < anext s;
+  ai_incr : forall t, incr (aseq s t) = true;
+  ai_nodup : forall t, NoDup (aseq s t);
+  ai_disj : forall t u x, t <> u -> In x (aseq s t) -> In x (aseq s u) -> False }.
+
+Lemma ainv_step n0 s t : AInv n0 s -> AInv n0 (astep s t).
+Proof.
+  intros [B Nx I D X]. split; cbn [astep anext aseq].
+  - intros u x. destruct (Nat.eqb u t).
+    + rewrite in_app_iff. intros [H|[<-|[]]]; [apply B in H|]; lia.
+    + intros H. apply B in H. lia.
+  - lia.
+  - intros u. destruct (Nat.eqb u t); [|apply I]. apply incr_snoc; [apply I|]. intros y H. apply B in H. lia.
+  - intros u. destruct (Nat.eqb u t); [|apply D]. apply nodup_app; [apply D|repeat constructor; intros []|].
+    intros x H [<-|[]]. apply B in H. lia.
+  - intros u v x UV. destruct (Nat.eqb u t) eqn:Eu, (Nat.eqb v t) eqn:Ev.
+    + apply Nat.eqb_eq in Eu, Ev. congruence.
+    + rewrite in_app_iff. intros [H|[<-|[]]] H2; [exact (X u v x UV H H2)|]. apply B in H2. lia.
+    + rewrite in_app_iff. intros H [H2|[<-|[]]]; [exact (X u v x UV H H2)|]. apply B in H. lia.
+    + apply X. exact UV.
+Qed.
+
+Lemma ainv_run n0 sched : forall s, AInv n0 s -> AInv n0 (arun s sched).
+Proof. induction sched as [|t r IH]; intros s H; [exact H|]. cbn [arun]. apply IH, ainv_step, H. Qed.
+
+Lemma ainv_init n0 : AInv n0 (mkA (n0 + 1) (fun _ => [])).
+Proof. split; cbn; try tauto; try lia; intros; try reflexivity; constructor. Qed.
+
+Lemma nodup_concat_map (f : nat -> list N) ts : NoDup ts -> (forall t, NoDup (f t)) ->
+  (forall t u x, t <> u -> In x (f t) -> In x (f u) -> False) -> NoDup (concat (map f ts)).
+Proof.
+  induction ts as [|t ts IH]; intros Nt Nf D; cbn; [constructor|].
+  inversion Nt as [|? ? N1 N2]; subst. apply nodup_app; [apply Nf|apply IH; assumption|].
+  intros x I1 I2. apply in_concat in I2 as (l & Il & Ix). apply in_map_iff in Il as (u & <- & Iu).
+  apply (D t u x); [intros ->; contradiction|exact I1|exact Ix].
+Qed.
+
+(* EVERY interleaving of atomic allocation steps, from every counter value, with any
+   number of threads: no id is handed out twice and every thread's ids increase *)
+Theorem alloc_any_schedule n0 threads sched :
+  match aout n0 threads sched with OAlloc b a seqs => monitor_alloc b a seqs = true | _ => False end.
+Proof.
+  unfold aout. pose proof (ainv_run n0 sched _ (ainv_init n0)) as H.
+  set (s := arun _ sched) in *. destruct H as [B Nx I D X].
+  unfold monitor_alloc. apply andb_true_iff. split.
+  - apply forallb_forall. intros q Iq. apply in_map_iff in Iq as (t & <- & _). apply I.
+  - apply nodupb_iff.
+    assert (C : forall x, In x (concat (map (aseq s) (seq 0 threads))) -> n0 < x < anext s).
+    { intros x Ix. apply in_concat in Ix as (l & Il & Ix). apply in_map_iff in Il as (t & <- & _). exact (B t x Ix). }
+    constructor; [|constructor].
+    + cbn. intros [E|H]; [lia|]. apply C in H. lia.
+    + intros H. apply C in H. lia.
+    + apply nodup_concat_map; [apply seq_NoDup|exact D|exact X].
+Qed.
+
+(* the monitor on an observed allocation output, as a statement *)
+Theorem monitor_alloc_spec b a seqs : monitor_alloc b a seqs = true <->
+  NoDup (b :: a :: concat seqs) /\ forall q, In q seqs -> incr q = true.
+Proof. unfold monitor_alloc. rewrite andb_true_iff, nodupb_iff, forallb_forall. tauto. Qed.
+
+Theorem model_satisfies_monitor : forall i, monitor i (model i) = true.
+Proof.
+  intros [l|threads per]; cbn [model].
+  - cbn [monitor]. apply model_scen_satisfies_monitor.
+  - pose proof (alloc_any_schedule 0 (N.to_nat threads) (canon_sched (N.to_nat threads) (N.to_nat per))) as H.
+    destruct (aout 0 _ _); [contradiction|exact H].
 Qed.
 
 (* ---------------- non-vacuity ---------------- *)
@@ -377,6 +482,15 @@ Example ex_denied :
   conns s 3 = ClosedDenied 0 /\ log s = [Connect 0 false].
 Proof. eexists. vm_compute. repeat split. Qed.
 
-Example ex_model : model [mkSpec 1 true; mkSpec 0 true; mkSpec 2 false] =
-  [(1, 0, true); (2, 0, false); (1, 1, false)].
+Example ex_model : model (IScen [mkSpec 1 true; mkSpec 0 true; mkSpec 2 false]) =
+  OLog [(1, 0, true); (2, 0, false); (1, 1, false)].
 Proof. vm_compute. reflexivity. Qed.
+
+(* concurrent allocation: an interleaved schedule of 3 threads, and the model's canonical one *)
+Example ex_alloc : aout 10 3 [0; 1; 0; 2; 2; 1]%nat = (OAlloc 10 17 [[11; 13]; [12; 16]; [14; 15]]).
+Proof. vm_compute. reflexivity. Qed.
+Example ex_alloc_model : model (IAlloc 2 3) = (OAlloc 0 7 [[1; 2; 3]; [4; 5; 6]]) /\ agree (IAlloc 2 3) (model (IAlloc 2 3)) = true.
+Proof. vm_compute. split; reflexivity. Qed.
+(* what a load / store allocator can produce (two threads read the same counter value): rejected *)
+Example ex_alloc_dup : monitor (IAlloc 2 2) (OAlloc 0 4 [[1; 2]; [1; 3]]) = false /\ agree (IAlloc 2 2) (OAlloc 0 4 [[1; 2]; [1; 3]]) = false.
+Proof. vm_compute. split; reflexivity. Qed.
